@@ -2,8 +2,8 @@
 
 What the C18 theorems hinge on: the EHLO extension table and the STARTTLS bit, the reply
 code tls_init() insists on, which TLSA certificate usages count as usable, the condition
-under which the verification result is looked at, whether tls_init() looks for pending
-clear text before the handshake, which errors make connect_mx() drop the socket without
+under which the verification result is looked at, whether lib/netio.c drops input buffered
+under another TLS state, whether main() refuses a pinned host without TLS, which errors make connect_mx() drop the socket without
 QUIT, whether quitmsg() forgets the TLS settings of the route, whose TLSA records
 connect_mx() asks for, the order of the STARTTLS / expect_tls / TLSA branches, and the
 first words of the reports on the exit paths."""
@@ -119,20 +119,29 @@ def gen_starttls(repo):
         raise TranslateError('tls_init: tlshosts file detection changed')
     out += _bytes('ST_RPT_PINLOAD', _firstword(one(r'if\s*\(\*servercert\s*&&\s*!SSL_CTX_load_verify_locations\(ctx,\s*servercert,\s*NULL\)\)\s*\{\s*const\s+char\s*\*msg\[\]\s*=\s*\{\s*"([^"]*)"', ti, 'tls_init load report')))
     out += _bytes('ST_RPT_TLSAADD', _firstword(one(r'if\s*\(ret\s*<\s*0\)\s*\{\s*const\s+char\s*\*msg\[\]\s*=\s*\{\s*"([^"]*)"', ti, 'tls_init tlsa add report')))
-    # the check for clear text behind the reply: between the reply test and the handshake
+    # nothing between the reply test and the handshake (the buffered clear text is the business of lib/netio.c)
     seg = one(r'return\s+i\s*<\s*0\s*\?\s*-i\s*:\s*EDONE;\s*\}(.*?)i\s*=\s*ssl_timeoutconn\(myssl,\s*timeout\);', ti, 'tls_init between reply and handshake', re.S)
-    if seg.strip() == '':
-        out += _bool('ST_CHECKS_PENDING', False)
-    elif re.fullmatch(r'\s*i\s*=\s*data_pending\(NULL\);\s*if\s*\(i\s*!=\s*0\)\s*\{\s*const\s+char\s*\*msg\[\]\s*=\s*\{[^}]*\};\s*ssl_free\(myssl\);\s*log_writen\(LOG_ERR,\s*msg\);\s*return\s+i\s*<\s*0\s*\?\s*-i\s*:\s*EDONE;\s*\}\s*', seg):
-        out += _bool('ST_CHECKS_PENDING', True)
-    else:
+    if seg.strip() != '':
         raise TranslateError('tls_init: code between the reply test and the handshake not understood')
+    # lib/netio.c: is input that was buffered under another TLS state dropped before it is used?
     nc = strip_comments(read(repo, 'lib/netio.c'))
-    dp = func_body(nc, 'data_pending', 'lib/netio.c')
-    if not re.search(r'if\s*\(linenlen\)\s*\{\s*return\s+1;\s*\}\s*else\s+if\s*\(s\)', dp) or \
-       not re.search(r'int\s+i\s*=\s*poll\(&rfd,\s*1,\s*0\);\s*if\s*\(i\s*<=\s*0\)\s*return\s+i\s*<\s*0\s*\?\s*-errno\s*:\s*0;', dp) or \
-       not re.search(r'i\s*=\s*read\(rfd\.fd,\s*lineinn,\s*1\);\s*if\s*\(i\s*==\s*-1\)\s*return\s+-errno;\s*if\s*\(i\s*>\s*0\)\s*\{\s*linenlen\s*=\s*i;\s*return\s+1;\s*\}\s*return\s+-ECONNRESET;', dp):
-        raise TranslateError('data_pending changed')
+    nr = func_body(nc, 'net_read', 'lib/netio.c')
+    has_fn = re.search(r'\bdrop_stale_input\s*\(void\)\s*\{', nc) is not None
+    if not has_fn and 'drop_stale_input' not in nc and not re.search(r'\bssl\b[^;]*linenlen\s*=\s*0|linenlen\s*=\s*0[^;]*;[^}]*\bssl\b', nr):
+        out += _bool('ST_PURGES', False)
+    elif has_fn:
+        df = func_body(nc, 'drop_stale_input', 'lib/netio.c')
+        if not re.search(r'\{\s*if\s*\(linenssl\s*!=\s*ssl\)\s*\{\s*linenlen\s*=\s*0;\s*linenssl\s*=\s*ssl;\s*\}\s*\}\s*$', df) or \
+           not re.search(r'static\s+const\s+SSL\s*\*linenssl;', nc) or \
+           len(re.findall(r'\blinenssl\b', nc)) != 3:
+            raise TranslateError('drop_stale_input changed')
+        if not re.search(r'int\s+valid;\s*drop_stale_input\(\);\s*if\s*\(linenlen\)\s*\{\s*p\s*=\s*find_eol\(lineinn,', nr):
+            raise TranslateError('net_read: drop_stale_input() is not the first thing done')
+        out += _bool('ST_PURGES', True)
+    else:
+        raise TranslateError('lib/netio.c: handling of stale input not understood')
+    if not re.search(r'if\s*\(ssl\)\s*\{\s*int\s+r\s*=\s*ssl_timeoutread\(ssl,', func_body(nc, 'readinput', 'lib/netio.c')):
+        raise TranslateError('readinput: channel selection changed')
 
     # ---------------------------------------------------------------- conn_mx.c
     cm = strip_comments(read(repo, 'qremote/conn_mx.c'))
@@ -157,21 +166,9 @@ def gen_starttls(repo):
         out += _bool('ST_TLSA_OF_HEAD', True)      # asked for the first list entry, before tryconn() picks the host
     else:
         raise TranslateError('connect_mx: TLSA lookup changed')
-    br = re.search(r'if\s*\(smtpext\s*&\s*esmtp_starttls\)\s*\{\s*flagerr\s*=\s*tls_init\(d,\s*tlsa\);(.*?)\}\s*else\s+if\s*\(expect_tls\)\s*\{(.*?)\}\s*else\s+if\s*\(tlsa\s*>\s*0\)\s*\{(.*?)\}(?:\s*else\s+if\s*\(tls_cert_pinned\(\)\)\s*\{(.*?)\})?\s*\}\s*while\s*\(socketd\s*<\s*0\);', cx, flags=re.S)
+    br = re.search(r'if\s*\(smtpext\s*&\s*esmtp_starttls\)\s*\{\s*flagerr\s*=\s*tls_init\(d,\s*tlsa\);(.*?)\}\s*else\s+if\s*\(expect_tls\)\s*\{(.*?)\}\s*else\s+if\s*\(tlsa\s*>\s*0\)\s*\{(.*?)\}\s*\}\s*while\s*\(socketd\s*<\s*0\);', cx, flags=re.S)
     if not br:
         raise TranslateError('connect_mx: STARTTLS / expect_tls / TLSA branches changed')
-    pin = br.group(4)
-    out += _bool('ST_PINNED_NEEDS_TLS', pin is not None)
-    if pin is not None:
-        if not re.search(r'log_writen\(LOG_WARNING,\s*dropmsg\);\s*quitmsg\(\);\s*continue;\s*$', pin.strip()):
-            raise TranslateError('connect_mx: the tlshosts branch no longer ends the connection')
-        pf = func_body(sc, 'tls_cert_pinned', 'qremote/starttlsr.c')
-        nf = func_body(sc, 'tls_servercert_name', 'qremote/starttlsr.c')
-        if not re.search(r"\(void\)\s*tls_servercert_name\(servercert\);\s*return\s*\(\*servercert\s*!=\s*'\\0'\);", pf) or \
-           not re.search(r"if\s*\(stat\(servercert,\s*&st\)\)\s*\*servercert\s*=\s*'\\0';", nf) or \
-           not re.search(r"if\s*\(partner_fqdn\s*==\s*NULL\)\s*\{\s*\*servercert\s*=\s*'\\0';", nf) or \
-           not re.search(r'const\s+size_t\s+fqlen\s*=\s*tls_servercert_name\(servercert\);', ti):
-            raise TranslateError('tls_cert_pinned / tls_servercert_name changed')
     a, b, c = br.group(1), br.group(2), br.group(3)
     if not re.search(r'if\s*\(flagerr\s*<\s*0\)\s*\{\s*daneinfo_free\(d,\s*tlsa\);\s*net_conn_shutdown\(shutdown_clean\);\s*\}\s*if\s*\(flagerr\s*!=\s*0\)\s*\{\s*quitmsg_if_net\(-flagerr\);\s*continue;\s*\}\s*flagerr\s*=\s*greeting\(\);\s*if\s*\(flagerr\s*<\s*0\)\s*\{\s*quitmsg_if_net\(flagerr\);\s*continue;\s*\}\s*else\s*\{\s*smtpext\s*=\s*flagerr;\s*\}', a):
         raise TranslateError('connect_mx: handling of the tls_init() result changed')
@@ -196,6 +193,25 @@ def gen_starttls(repo):
         raise TranslateError('smtproute: expect_tls no longer follows clientcert=')
     mn = func_body(qc, 'main', 'qremote/qremote.c')
     out += _bytes('ST_RPT_NOCONN', _firstword(one(r'i\s*=\s*connect_mx\(mx,\s*&outgoingip,\s*&outgoingip6\);\s*freeips\(mx\);\s*if\s*\(i\s*<\s*0\)\s*\{\s*write_status\("([^"]*)"\);\s*net_conn_shutdown\(shutdown_abort\);', mn, 'main: no connection report')))
+    pm = re.search(r'net_conn_shutdown\(shutdown_abort\);\s*\}\s*(.*?)if\s*\(ssl\)\s*\{\s*successmsg\[3\]', mn[mn.index('connect_mx('):], flags=re.S)
+    if not pm:
+        raise TranslateError('main: code behind connect_mx() changed')
+    if pm.group(1).strip() == '':
+        out += _bool('ST_PINNED_NEEDS_TLS', False)
+        out += _bytes('ST_RPT_PINNED', '')
+    else:
+        m4 = re.fullmatch(r'\s*if\s*\(\(ssl\s*==\s*NULL\)\s*&&\s*tls_cert_pinned\(\)\)\s*\{\s*const\s+char\s*\*logmsg\[\]\s*=\s*\{[^}]*\};\s*log_writen\(LOG_WARNING,\s*logmsg\);\s*write_status\("([^"]*)"\);\s*net_conn_shutdown\(shutdown_clean\);\s*\}\s*', pm.group(1))
+        if not m4:
+            raise TranslateError('main: code between connect_mx() and the transmission not understood')
+        pf = func_body(sc, 'tls_cert_pinned', 'qremote/starttlsr.c')
+        nf = func_body(sc, 'tls_servercert_name', 'qremote/starttlsr.c')
+        if not re.search(r"\(void\)\s*tls_servercert_name\(servercert\);\s*return\s*\(\*servercert\s*!=\s*'\\0'\);", pf) or \
+           not re.search(r"if\s*\(stat\(servercert,\s*&st\)\)\s*\*servercert\s*=\s*'\\0';", nf) or \
+           not re.search(r"if\s*\(partner_fqdn\s*==\s*NULL\)\s*\{\s*\*servercert\s*=\s*'\\0';", nf) or \
+           not re.search(r'const\s+size_t\s+fqlen\s*=\s*tls_servercert_name\(servercert\);', ti):
+            raise TranslateError('tls_cert_pinned / tls_servercert_name changed')
+        out += _bool('ST_PINNED_NEEDS_TLS', True)
+        out += _bytes('ST_RPT_PINNED', _firstword(m4.group(1)))
     if not re.search(r'if\s*\(send_envelope\(recodeflag,\s*argv\[2\],\s*argc\s*-\s*3,\s*argv\s*\+\s*3\)\s*!=\s*0\)\s*net_conn_shutdown\(shutdown_clean\);', mn):
         raise TranslateError('main: send_envelope call changed')
 
